@@ -455,4 +455,44 @@ theorem newEx_safe (U : Unq) (rules : List Rule) (h : ∀ r ∈ rules, NFc r.exp
         | recursive n => exact fin_ok _ _
         | ok f me => exact fin_ok _ _
 
+theorem newEx_ne_parseErr (U : Unq) (rules : List Rule) : newEx U rules ≠ .parseErr := by
+  unfold newEx
+  simp only
+  repeat' split
+  all_goals simp
+
+/-! ### Relocate -/
+
+theorem relocateDefault_total (h : GopModel.Generated.TplToken.relocateDefaultPanics = false) (e : GoErr) :
+    relocateDefault e = some e := by
+  unfold relocateDefault; rw [h]; rfl
+
+mutual
+theorem relocate_total (h : GopModel.Generated.TplToken.relocateDefaultPanics = false) :
+    ∀ (e : GoErr), ∃ e', relocate e = some e'
+  | .plain => by rw [relocate]; exact ⟨_, relocateDefault_total h _⟩
+  | .scanError => by rw [relocate]; split; exact ⟨_, rfl⟩; exact ⟨_, relocateDefault_total h _⟩
+  | .scanErrorList => by rw [relocate]; split; exact ⟨_, rfl⟩; exact ⟨_, relocateDefault_total h _⟩
+  | .matcherError => by rw [relocate]; split; exact ⟨_, rfl⟩; exact ⟨_, relocateDefault_total h _⟩
+  | .errorsList items => by
+    rw [relocate]
+    split
+    · obtain ⟨l, hl⟩ := relocateList_total h items
+      rw [hl]; exact ⟨_, rfl⟩
+    · exact ⟨_, relocateDefault_total h _⟩
+theorem relocateList_total (h : GopModel.Generated.TplToken.relocateDefaultPanics = false) :
+    ∀ (l : List GoErr), ∃ l', relocateList l = some l'
+  | [] => ⟨[], rfl⟩
+  | e :: rest => by
+    rw [relocateList]
+    obtain ⟨e', he⟩ := relocate_total h e
+    obtain ⟨l', hl⟩ := relocateList_total h rest
+    rw [he]; simp only; rw [hl]; exact ⟨_, rfl⟩
+end
+
+def FromFileRes.isBad : FromFileRes → Bool
+  | .panic => true
+  | .oof => true
+  | _ => false
+
 end GopModel.Tpl
